@@ -41,7 +41,7 @@ pub fn leaf_atoms() -> Vec<Cell> {
     ]
 }
 
-pub const N_SHAPES: usize = 12;
+pub const N_SHAPES: usize = 13;
 
 /// One-hole shapes; `a` is a fixed sibling atom.
 pub fn shape(k: usize, hole: Cell) -> Cell {
@@ -59,6 +59,7 @@ pub fn shape(k: usize, hole: Cell) -> Cell {
         9 => list(vec![sym("quote"), hole, a()]),
         10 => list(vec![hole]),
         11 => Cell::new_improper_list(vec![sym("quote")], hole),
+        12 => list(vec![sym("unquote-splicing"), hole]),
         _ => unreachable!(),
     }
 }
